@@ -119,7 +119,7 @@ theorem stepE (σ : Env) (μ : Heap) (C : Ctx) (e : Expr) (v : Val) (μ' : Heap)
     split at h
     · rename_i w hw
       cases h
-      exact ⟨ext_trans e1 e2, vgeL_getElem? (asList_vge e2.1 hav h3) hw⟩
+      exact ⟨ext_trans e1 e2, vgeL_getElem? (asSeq_vge e2.1 hav h3) hw⟩
     · cases h
   | slice a s t =>
     simp only [evalE] at h
